@@ -258,7 +258,7 @@ def judge_isar(job):
             # portable spelling: fully parenthesised, no division -> every back-end language agrees on its value;
             # other spellings are re-evaluated by the back-end language (recorded finding F24)
             text = (X.render_min(tree) if division else X.render_full(tree)).replace('<<', '@SHL@')
-            if has_octal(text) or 'E_X' in text:
+            if has_octal(text) or 'E_X' in text or abs(v) >= 1 << 53:
                 # isar has no octal literals; enumerator references depend on definition ordering (C15's subject)
                 continue
             if (not division) and '/' in text:
@@ -313,6 +313,60 @@ def judge_isar(job):
     return out
 
 
+def judge_two_files(job):
+    """The same size expression in two isar files of one run, over constants of different values: each file
+    must get its own value (nothing keyed by expression text may leak from one file to the other)."""
+    items, tier = job
+    T.setup_repo()
+    out = {'viol': [], 'exprs': 0, 'checks': 0}
+    seen = {}
+    try:
+        envs = {'one': {'A': 6, 'B': 20, 'INC': 5}, 'two': {'A': 2, 'B': 3, 'INC': 9}}
+        d = T.fresh_dir('c14t')
+        expect = {}
+        for fname, env in envs.items():
+            lines = ['<xml>'] + ['<constant name="%s" value="%d"/>' % (k, v) for k, v in sorted(env.items())]
+            for i, tree, v in items:
+                text = X.render_full(tree)
+                if '<' in text or '/' in text or has_octal(text) or 'E_X' in text:
+                    continue
+                try:
+                    val = X.evaluate(tree, env)
+                    v1, v2 = X.evaluate(tree, envs['one']), X.evaluate(tree, envs['two'])
+                except X.Invalid:
+                    continue
+                if not 1 <= v1 <= 60 or not 1 <= v2 <= 60 or v1 == v2:
+                    continue
+                lines.append('<struct name="SA%d_%s"><member name="a" type="u8"><dimension size="%s"/></member></struct>' % (
+                    i, fname, text))
+                expect[('SA%d_%s' % (i, fname), fname)] = (val, text)
+            lines.append('</xml>')
+            with open(os.path.join(d, fname + '.xml'), 'w') as f:
+                f.write('\n'.join(lines) + '\n')
+        out['exprs'] = len(expect) // 2
+        for order in (('one', 'two'), ('two', 'one')):
+            res = T.run_prophyc(['--isar', '--python_out', d, '--cpp_full_out', d] + [os.path.join(d, n + '.xml') for n in order])
+            if not res.ok:
+                out['viol'].append(('two-files|prophyc-fails|%s' % res.exc_type, {'expr': '(batch)', 'value': 0, 'two_files': True,
+                                                                                   'detail': str(res.exc)[:300]}))
+                continue
+            for (sname, fname), (val, text) in expect.items():
+                out['checks'] += 1
+                node = dict((n.name, n) for n in res.nodes[fname]).get(sname)
+                if node is None or node.members[0].numeric_size != val or node.byte_size != val:
+                    key = 'two-files|array-size-from-the-other-file'
+                    seen[key] = seen.get(key, 0) + 1
+                    out['viol'].append((key, {'expr': text, 'value': val, 'two_files': True, 'order': list(order), 'file': fname,
+                                              'detail': 'size expression %s in %s.xml: model numeric_size %r byte_size %r, expected %d '
+                                                        '(inputs given as %s)' % (text, fname, node and node.members[0].numeric_size,
+                                                                                  node and node.byte_size, val, list(order))}
+                                        if seen[key] <= 2 else None))
+        shutil.rmtree(d, ignore_errors=True)
+    except Exception:       # noqa
+        out['harness_error'] = traceback.format_exc()
+    return out
+
+
 def run(ctx):
     items = [(i, t, v) for i, (t, v) in enumerate(X.universe(ctx.tier))]
     batches = [items[k:k + BATCH] for k in range(0, len(items), BATCH)]
@@ -349,6 +403,10 @@ def run(ctx):
     for res in ctx.pmap(judge_isar, [(b, ctx.tier, dv) for b in batches for dv in (False, True)]):
         fold(res)
         ctx.cov['isar_expressions'] = ctx.cov.get('isar_expressions', 0) + res['exprs']
+    named = [it for it in items if 'name' in X.kinds(it[1])]
+    for res in ctx.pmap(judge_two_files, [(named[k:k + 2000], ctx.tier) for k in range(0, len(named), 2000)]):
+        fold(res)
+        ctx.cov['two_file_expressions'] = ctx.cov.get('two_file_expressions', 0) + res['exprs']
     for key in [k for k, v in ctx.violations.items() if not v]:
         del ctx.violations[key]
     ctx.cov['sites'] = sites
@@ -366,6 +424,20 @@ def replay(art):
     import prophyc.calc
     text, v = art['expr'], art['value']
     if text == '(batch)':
+        return None
+    if art.get('two_files'):
+        d = T.fresh_dir('c14tr')
+        for fname, env in (('one', {'A': 6, 'B': 20, 'INC': 5}), ('two', {'A': 2, 'B': 3, 'INC': 9})):
+            with open(os.path.join(d, fname + '.xml'), 'w') as f:
+                f.write('<xml>%s<struct name="SA_%s"><member name="a" type="u8"><dimension size="%s"/></member></struct></xml>' % (
+                    ''.join('<constant name="%s" value="%d"/>' % kv for kv in sorted(env.items())), fname, text))
+        res = T.run_prophyc(['--isar', '--python_out', d] + [os.path.join(d, n + '.xml') for n in art['order']])
+        if not res.ok:
+            return 'prophyc fails: %s' % res.exc
+        node = dict((n.name, n) for n in res.nodes[art['file']])['SA_' + art['file']]
+        if node.members[0].numeric_size != v:
+            return 'size expression %s in %s.xml (inputs %s): numeric_size %r, expected %d' % (
+                text, art['file'], art['order'], node.members[0].numeric_size, v)
         return None
     problems = []
     if art.get('frontend') == 'isar':
